@@ -160,6 +160,51 @@ Proof.
   rewrite <- Hb. unfold names. rewrite map_length. reflexivity.
 Qed.
 
+(* ---- shape of an environment: names and mutability flags, in order (what Ref's execution never changes below the
+   bindings it adds) *)
+Definition shape (s : list (ident * (bool * value))) : list (ident * bool) := map (fun b => (fst b, fst (snd b))) s.
+Lemma shape_app a b : shape (a ++ b) = shape a ++ shape b.
+Proof. unfold shape. apply map_app. Qed.
+Lemma shape_length a b : shape a = shape b -> length a = length b.
+Proof. intros H. rewrite <- (map_length (fun b => (fst b, fst (snd b))) a), <- (map_length (fun b => (fst b, fst (snd b))) b). unfold shape in H. rewrite H. reflexivity. Qed.
+Lemma shape_names a : names a = map fst (shape a).
+Proof. unfold names, shape. rewrite map_map. reflexivity. Qed.
+Lemma shape_split (s : list (ident * (bool * value))) p q :
+  shape s = p ++ q -> exists a b, s = a ++ b /\ shape a = p /\ shape b = q.
+Proof.
+  revert s. induction p as [|x p IH]; intros s H.
+  - exists [], s. auto.
+  - destruct s as [|e s]; [discriminate|]. simpl in H. inversion H. destruct (IH s H2) as [a [b [E [Ha Hb]]]].
+    exists (e :: a), b. subst. simpl. auto.
+Qed.
+Lemma assign_shape x v e e' : assign x v e = Some e' -> shape e' = shape e.
+Proof.
+  revert e'. induction e as [|[y [m w]] r IH]; simpl; intros e' H; [discriminate|].
+  destruct (N.eqb x y).
+  - destruct m; inversion H; subst. reflexivity.
+  - destruct (assign x v r) eqn:E; inversion H; subst. simpl. f_equal. apply IH. reflexivity.
+Qed.
+(* where Ref's assignment succeeds the evaluator's (which ignores mutability) does the same thing *)
+Lemma iassign_assign x v e e' : assign x v e = Some e' -> iassign x v e = e'.
+Proof.
+  revert e'. induction e as [|[y [m w]] r IH]; simpl; intros e' H; [discriminate|].
+  destruct (N.eqb x y).
+  - destruct m; inversion H; subst. reflexivity.
+  - destruct (assign x v r) eqn:E; inversion H; subst. f_equal. apply IH. reflexivity.
+Qed.
+(* leaving a block: Ref restores the environment's height, the evaluator truncates the stack to the block's base *)
+Lemma leave_block (e e' : env) pre :
+  shape e' = pre ++ shape e ->
+  exists a b, e' = a ++ b /\ shape a = pre /\ shape b = shape e /\ restore (length e) e' = b /\
+              forall rest, truncate (length (e ++ rest)) (e' ++ rest) = b ++ rest.
+Proof.
+  intros H. destruct (shape_split _ _ _ H) as [a [b [E [Ha Hb]]]]. exists a, b. subst e'.
+  pose proof (shape_length _ _ Hb) as L. repeat split; auto.
+  - rewrite <- L. apply restore_app.
+  - intros rest. rewrite <- app_assoc. replace (length (e ++ rest)) with (length (b ++ rest)) by (rewrite !app_length, L; reflexivity).
+    apply truncate_app.
+Qed.
+
 (* ---- the slot written by the for loop *)
 Lemma set_from_top_app P y m w R v : set_from_top (length P) v (P ++ (y, (m, w)) :: R) = P ++ (y, (m, v)) :: R.
 Proof. induction P as [|e P IH]; simpl; [reflexivity|]. destruct e as [z [m' w']]. f_equal. exact IH. Qed.
@@ -271,11 +316,13 @@ Proof.
         eapply ext_trans; [exact X|eapply IHs; eauto].
       * ib H. inversion H; subst. destruct (IHe _ _ _ _ E) as [l Hl]. exists l. exact Hl.
       * ib H. inversion H; subst. destruct (IHe _ _ _ _ E) as [l Hl]. exists l. exact Hl.
-      * ib H. eapply ext_trans; [eapply IHe; eauto|eapply IHs; eauto].
+      * ib H. ib H. inversion H; subst. eapply ext_trans; [eapply IHe; eauto|].
+        destruct (IHs _ _ _ _ E0) as [l Hl]. exists l. exact Hl.
       * ib H. pose proof (IHe _ _ _ _ E) as X. destruct (truthy v); [|inversion H; subst; exact X].
         ib H. pose proof (IHs _ _ _ _ E0) as Y.
-        destruct v0; try (inversion H; subst; eapply ext_trans; eassumption);
-          (eapply ext_trans; [exact X|eapply ext_trans; [exact Y|eapply IHs; eauto]]).
+        assert (Z : ext w (with_stk w1 (truncate (length (w_stk w0)) (w_stk w1)))).
+        { eapply ext_trans; [exact X|]. destruct Y as [l Hl]. exists l. exact Hl. }
+        destruct v0; try (inversion H; subst; exact Z); (eapply ext_trans; [exact Z|eapply IHs; eauto]).
       * ib H. ib H. pose proof (ext_trans _ _ _ (IHe _ _ _ _ E) (IHe _ _ _ _ E0)) as X.
         destruct v as [a| | |]; try (inversion H; subst; exact X).
         destruct v0 as [b| | |]; try (inversion H; subst; exact X).
@@ -289,8 +336,9 @@ Proof.
     + red. intros idx i hi body w c w' H. simpl in H. destruct (Z.ltb i hi).
       * ib H. destruct (IHs _ _ _ _ E) as [l Hl]. simpl in Hl.
         assert (X : ext w w0) by (exists l; exact Hl).
+        assert (X2 : ext w (with_stk w0 (truncate (S idx) (w_stk w0)))) by (destruct X as [l' Hl']; exists l'; exact Hl').
         destruct v; try (inversion H; subst; destruct X as [l' Hl']; exists l'; exact Hl');
-          (eapply ext_trans; [exact X|eapply IHf; eauto]).
+          (eapply ext_trans; [exact X2|eapply IHf; eauto]).
       * inversion H; subst. exists []. simpl. rewrite app_nil_r. reflexivity.
 Qed.
 
